@@ -258,7 +258,7 @@ def _reuse_chunk(firsts):
 # each place a name can live: a character-set operation where a prefix was meant (str.lstrip,
 # str.strip with the product name's letters) eats into some names and not into others.
 NAME_CHARS = [chr(c) for c in range(ord("A"), ord("Z") + 1)] + \
-             [chr(c) for c in range(ord("a"), ord("z") + 1)] + list("0123456789") + list("-.#+(")
+             [chr(c) for c in range(ord("a"), ord("z") + 1)] + list("0123456789") + list("-.#+(") + [" ", "_", "\u00e9"]
 
 
 def name_alphabet_lists():
